@@ -35,9 +35,33 @@ def build(spec):
         else:
           b.AddOrigin(nodes[where], [binds[i] for i in ss])
     binds.append(b)
+  for b, where, ss in spec.get("late") or []:
+    binds[b].AddOrigin(nodes[where], [binds[i] for i in ss])
   for n, c in (spec.get("conds") or {}).items():
     nodes[int(n)].condition = binds[c]
   return p, nodes, vars_, binds
+
+
+def sources_acyclic_with(spec, b, ss):
+  """Would adding source set `ss` to binding b keep the source graph acyclic?"""
+  direct = {i: set() for i in range(len(spec["bindings"]))}
+  for i, (_, origins) in enumerate(spec["bindings"]):
+    for _, ssets in origins:
+      for s in ssets:
+        direct[i].update(s)
+  for lb, _, lss in spec.get("late") or []:
+    direct[lb].update(lss)
+  seen = set()
+  todo = list(ss)
+  while todo:
+    x = todo.pop()
+    if x == b:
+      return False
+    if x in seen:
+      continue
+    seen.add(x)
+    todo.extend(direct[x])
+  return True
 
 
 class Reference:
@@ -59,12 +83,18 @@ class Reference:
       if a != b and a not in self.preds[b]:
         self.preds[b].append(a)
     B = spec["bindings"]
-    self.origin_at = [{w: ss for (w, ss) in origins} for (_, origins) in B]
+    self.origin_at = [{w: [list(x) for x in ss] for (w, ss) in origins}
+                      for (_, origins) in B]   # copies: never mutate the spec
     self.var_of = [v for (v, _) in B]
     self.var_nodes = {}
     for v, origins in B:
       for w, _ in origins:
         self.var_nodes.setdefault(v, set()).add(w)
+    for b, w, ss in spec.get("late") or []:
+      lst = self.origin_at[b].setdefault(w, [])
+      if list(ss) not in [list(x) for x in lst]:
+        lst.append(list(ss))
+      self.var_nodes.setdefault(self.var_of[b], set()).add(w)
     self.conds = {int(k): v for k, v in (spec.get("conds") or {}).items()}
     self.strict = strict_conds
     self._memo_explain = {}
